@@ -72,7 +72,7 @@ def c07_chain(report, cfg, arm, nblocks):
             else:
                 j = half + i
                 report.violated("R7.3", ikey, "%s (%s arm): output byte %d (row %d, column %d) bit %d of Omega(f(h,m..)) differs from the Groestl specification"
-                                % (cname, arm, j // 8, (j // 8) % 8, (j // 8) // 8, j % 8))
+                                % (cname, arm, j // 8, (j // 8) % 8, (j // 8) // 8, j % 8), graphs=(got[half:], exp[half:]))
         engine_guard(go, report, "R7.3", ikey)
 
 
@@ -201,7 +201,7 @@ def c07_finalize(report, cfg, only=None, positions=None):
                     report.ok("R7.4", ikey, sample={"hasher": name, "buffered": p, "padding_blocks": nb} if p in (0, bb - 9, bb - 8) else None)
                 else:
                     report.violated("R7.4", ikey, "%s finalisation with %d buffered bytes: digest byte %d differs from (pad 0x80, zeros, 64-bit BE count of %d more block(s); last %d bytes of the output transformation)"
-                                    % (name, p, i // 8, nb, nout))
+                                    % (name, p, i // 8, nb, nout), graphs=(got, exp))
             engine_guard(go, report, "R7.4", ikey)
     return total
 
